@@ -231,6 +231,7 @@ def xorshift_theorems(u, done):
     return [(f"XorShiftRng.{fn}", stmt, props, fn) for fn, stmt, props in pairs if fn in done]
 
 PROOFS = {
+    "f1": "ext_tie_step", "f2": "ext_tie_step",
     "stir_pool": "ext_tie_stir", "lfsr": "ext_tie_lfsr", "stuck": "ext_tie_step",
     # tactic scripts tried in order (first | …); `rfl` is by far the common case: the translation unfolds to the model
     "next_u32": "ext_tie_step", "next_u64": "ext_tie_step", "fill_bytes": "ext_tie_fill", "jump": "ext_tie_jump",
@@ -274,6 +275,14 @@ def generate(repo, exclude=None):
             theorems += jitter_theorems(u, done)
     except Exception as e:
         report["rand_jitter"] = dict(error=repr(e))
+    try:
+        for u, order in build_units_hc(repo):
+            text, done, skipped = emit_unit(u, order, exclude.get(u.name, {}))
+            parts.append(text)
+            report[u.name] = dict(file=u.file, translated=done, skipped=skipped, shape=u.shape, seed_len=u.seed_len)
+            theorems += hc_theorems(u, done)
+    except Exception as e:
+        report["rand_hc"] = dict(error=repr(e))
     digest = hashlib.sha256("\n".join(parts).encode()).hexdigest()[:16]
     out = [HEADER.format(digest=digest)] + parts + ["\nnamespace ExtTie"]
     for name, stmt, props, fn in theorems:
@@ -321,6 +330,29 @@ def build_units_jitter(repo):
     eu.shape, eu.seed_len, eu.file = ("Ec", 32), None, "rand_jitter/src/lib.rs"
     units.append((eu, ["stuck"]))
     return units
+
+def build_units_hc(repo):
+    """rand_hc: the message-schedule functions f1, f2 (nested in Hc128Core::init)"""
+    path = os.path.join(repo, "rand_hc/src/hc128.rs")
+    f = rsfront.load(path)
+    init = None
+    for trait, ty, fns, consts in f.impls:
+        if ty == "Hc128Core" and "init" in fns:
+            init = fns["init"]
+    if init is None:
+        raise Unsupported("Hc128Core::init not found")
+    ms = {}
+    for n in ("f1", "f2"):
+        try:
+            ms[n] = nested_fn(init, n, dict(f.macros))
+        except Unsupported:
+            pass
+    u = Unit("Hc128Fns", StructInfo("Hc128Fns", "Unit", {}), ms, {}, dict(f.macros), {}, "Rngs.Ext.Hc128Fns")
+    u.shape, u.seed_len, u.file = ("fn", 32), None, "rand_hc/src/hc128.rs"
+    return [(u, ["f1", "f2"])]
+
+def hc_theorems(u, done):
+    return [(f"Hc128Fns.{n}", f"Ext.Hc128Fns.{n} = Hc128.{n}", ["C02"], n) for n in ("f1", "f2") if n in done]
 
 def jitter_theorems(u, done):
     th = []
